@@ -932,7 +932,7 @@ def _step(self, e):
             if rw and st.rv.kind == "use" and st.rv.a[0].kind == "const" and st.rv.a[0].const == rw["literal"] \
                     and re.search(rw["function"], f.fn.name):
                 b = self.csym("spin_budget", val.e.size())
-                e.cond = z3.And(e.cond, z3.ULE(b, 1))
+                e.cond = z3.And(e.cond, z3.ULE(b, rw.get("max_budget", 1)))
                 val = BV(b, val.signed)
                 self.cfg.setdefault("_spin_rewritten", set()).add(f.fn.name)
             e.write_place(st.place, val)
